@@ -1,6 +1,5 @@
--- imports PathNeverWrong_proof.lean (Probe.PathNW) and QueryNeverWrong_proof.lean (Probe.QueryNW)
-import Probe.PathNW
-import Probe.QueryNW
+import PathNeverWrong_proof
+import QueryNeverWrong_proof
 /-! C06 `never_wrong`, all four locations assembled: a parameter value that survives the round trip client encoder →
     transport → server decoder is the value that was sent, except in the four known classes W1–W4 (all of them
     arrays that are empty or hold one empty string). -/
